@@ -4,6 +4,7 @@ import (
 	"errors"
 	"math/big"
 
+	sdkmath "cosmossdk.io/math"
 	"github.com/ethereum/go-ethereum/accounts/abi"
 	"github.com/ethereum/go-ethereum/common"
 
@@ -68,6 +69,9 @@ func (args *CrossChainArgs) Validate() error {
 	}
 	if args.Fee == nil || args.Fee.Sign() < 0 {
 		return errors.New("invalid fee")
+	}
+	if new(big.Int).Add(args.Amount, args.Fee).BitLen() > sdkmath.MaxBitLen {
+		return errors.New("amount + fee overflow")
 	}
 	if args.Target == [32]byte{} {
 		return errors.New("empty target")
